@@ -18,16 +18,18 @@ pub struct Plan {
 pub fn plan(prop: &str, tier: Tier) -> Plan {
     let (q, t) = match prop {
         "C05" | "C06" => (300_000, 8_000_000),
-        "C07" | "C08" | "C09" | "C10" | "C15" | "C14" => (200_000, 5_000_000),
-        "C13" => (400_000, 8_000_000),
-        "C12" => (250_000, 5_000_000),
-        "C16" => (150_000, 3_000_000),
+        "C07" | "C08" | "C09" => (200_000, 5_000_000),
+        "C10" => (200_000, 8_000_000),
+        "C14" | "C15" => (200_000, 15_000_000),
+        "C13" => (400_000, 20_000_000),
+        "C12" => (250_000, 8_000_000),
+        "C16" => (150_000, 6_000_000),
         "C03" => (100_000, 1_500_000),
-        "C04" => (80_000, 2_000_000),
+        "C04" => (80_000, 12_000_000),
         "C01" => (300_000, 4_000_000),
         "C02" => (150_000, 3_000_000),
         "C11" => (4_000, 40_000),
-        "C17" => (300_000, 6_000_000),
+        "C17" => (300_000, 20_000_000),
         _ => (10_000, 100_000),
     };
     Plan { random_runs: if tier == Tier::Quick { q } else { t } }
